@@ -26,7 +26,7 @@ def taste_ok(path, fails, what, coords=True, limit=None):
     return True
 
 
-def compare_plotfile(outdir, exp, fails, what, data_mode="bits", minmax="rows", rtol=1e-12):
+def compare_plotfile(outdir, exp, fails, what, data_mode="bits", minmax="rows", rtol=1e-12, minmax_rtol=1e-14):
     """exp: dict(names, ndims, time, geo_lo, geo_hi, L, n[lv], dx[lv], boxes[lv] = [(lo,hi)], bounds[lv] (optional),
     data[lv][b] array (..., nf), mins/maxs[lv] arrays (nb, nf) or None)."""
     try:
@@ -95,7 +95,7 @@ def compare_plotfile(outdir, exp, fails, what, data_mode="bits", minmax="rows", 
                 for nm, tab in (("mins", exp["mins"]), ("maxs", exp["maxs"])):
                     row = np.asarray(lvi[nm][gb], float)
                     erow = np.asarray(tab[lv][b], float)
-                    if row.shape != erow.shape or not np.allclose(row, erow, rtol=1e-14, atol=0, equal_nan=True):
+                    if row.shape != erow.shape or not np.allclose(row, erow, rtol=minmax_rtol, atol=0, equal_nan=True):
                         bad(f"{nm} row of box {bx} level {lv} differs", f"{row} vs {erow}")
                         return info
     return info
